@@ -122,7 +122,9 @@ class MocksEmitter:
         for operation in spec.operations:
             for tag in operation.tags or ["default"]:
                 key = NameSanitizer.normalize_tag_key(tag)
-                ops_by_key.setdefault(key, []).append(operation)
+                ops_for_key = ops_by_key.setdefault(key, [])
+                if not any(existing is operation for existing in ops_for_key):
+                    ops_for_key.append(operation)
                 candidates_by_key.setdefault(key, []).append(tag)
 
         def tag_score(t: str) -> tuple[bool, int, int, str]:
